@@ -4,6 +4,7 @@ import (
 	"encoding/hex"
 	"encoding/json"
 	"fmt"
+	"io"
 	"os"
 	"path/filepath"
 	"runtime/debug"
@@ -17,18 +18,20 @@ import (
 func init() { handlers["parse"] = cmdParse }
 
 type parseReq struct {
-	Files map[string]string `json:"files"`
-	Main  string            `json:"main"`
-	Dump  []string          `json:"dump"` // extra observables: "calls", "lits", "ast", "decls"
-	Keep  bool              `json:"keep"`
+	Files    map[string]string `json:"files"`
+	HexFiles map[string]string `json:"hexfiles"` // file contents as hex (for bytes that are not UTF-8)
+	Render   bool              `json:"render"`   // also run every diagnostic through ddperror.MakeAdvancedHandler
+	Main     string            `json:"main"`
+	Dump     []string          `json:"dump"` // extra observables: "calls", "lits", "ast", "decls"
+	Keep     bool              `json:"keep"`
 }
 
 type diagOut struct {
-	Code  int    `json:"code"`
-	Level int    `json:"level"`
-	File  string `json:"file"`
+	Code  int     `json:"code"`
+	Level int     `json:"level"`
+	File  string  `json:"file"`
 	Range [4]uint `json:"range"`
-	Msg   string `json:"msg"`
+	Msg   string  `json:"msg"`
 }
 
 type parseResp struct {
@@ -62,6 +65,21 @@ func writeFiles(files map[string]string) (string, error) {
 
 func doParse(req *parseReq) (resp parseResp) {
 	dir, err := writeFiles(req.Files)
+	if err == nil {
+		for name, hx := range req.HexFiles {
+			raw, herr := hex.DecodeString(hx)
+			if herr != nil {
+				err = herr
+				break
+			}
+			p := filepath.Join(dir, name)
+			os.MkdirAll(filepath.Dir(p), 0o755)
+			if werr := os.WriteFile(p, raw, 0o644); werr != nil {
+				err = werr
+				break
+			}
+		}
+	}
 	if dir != "" && !req.Keep {
 		defer os.RemoveAll(dir)
 	}
@@ -71,7 +89,27 @@ func doParse(req *parseReq) (resp parseResp) {
 		return
 	}
 	resp.Diags = []diagOut{}
+	renderers := map[string]ddperror.Handler{}
 	handler := func(e ddperror.Error) {
+		if req.Render {
+			func() {
+				defer func() {
+					if r := recover(); r != nil {
+						if resp.Extra == nil {
+							resp.Extra = map[string][]string{}
+						}
+						resp.Extra["render-panic"] = append(resp.Extra["render-panic"], fmt.Sprintf("%s %v: %v", e.File, e.Range, r))
+					}
+				}()
+				h, ok := renderers[e.File]
+				if !ok {
+					src, _ := os.ReadFile(e.File)
+					h = ddperror.MakeAdvancedHandler(e.File, src, io.Discard)
+					renderers[e.File] = h
+				}
+				h(e)
+			}()
+		}
 		f := e.File
 		if rel, err := filepath.Rel(dir, f); err == nil && len(rel) > 0 && rel[0] != '.' {
 			f = rel
@@ -85,8 +123,8 @@ func doParse(req *parseReq) (resp parseResp) {
 		if r := recover(); r != nil {
 			resp.Result = "panic"
 			resp.Panic = fmt.Sprint(r)
-			if len(resp.Panic) > 600 {
-				resp.Panic = resp.Panic[:600]
+			if len(resp.Panic) > 6000 {
+				resp.Panic = resp.Panic[:6000]
 			}
 			st := string(debug.Stack())
 			if len(st) > 1500 {
